@@ -208,9 +208,12 @@ pub fn ops(args: &[&str]) -> String {
     let bytes = b.to_cbor();
     // the wire carries whole milliseconds: a sub-millisecond part put into the lifetime by LIFENS cannot (and need not) come back
     b.primary.lifetime = std::time::Duration::from_millis(b.primary.lifetime.as_millis() as u64);
-    let rt = match Bundle::try_from(bytes.as_slice()) {
-        Ok(d) => d == b,
-        Err(_) => false,
+    let main = Bundle::try_from(bytes.as_slice()).ok();
+    // .. through every public route (try_from(Vec<u8>), serde_cbor::from_slice / from_reader, serde's Serialize for Bundle)
+    let alt = crate::bio::alt_route_diff(&b, &bytes, &main);
+    let rt = match main {
+        Some(d) => d == b && alt.is_none(),
+        None => false,
     };
     format!("{} FINAL {} PL {} RT {}", out, validity, pl, show_bool(rt))
 }
